@@ -216,6 +216,16 @@ impl State {
         Ok(state)
     }
 
+    #[cfg(dryoc_verif)]
+    pub(crate) fn verif_buf_len(&self) -> usize {
+        self.buf.len()
+    }
+
+    #[cfg(dryoc_verif)]
+    pub(crate) fn verif_counter(&self) -> [u64; 2] {
+        self.t
+    }
+
     pub(crate) fn update(&mut self, input: &[u8]) {
         if input.is_empty() {
             // return early if the input is empty
